@@ -5,7 +5,7 @@ from hypothesis import strategies as st
 
 # name -> type; the decorated function takes all ARGS; the condition lambda takes the ones it uses
 ARGS = {"x": "int", "n": "int", "s": "str", "xs": "ilist", "ys": "ilist", "ss": "iset", "d": "sdict", "t": "itup",
-        "o": "obj", "m": "mat", "id": "int", "G": "int"}
+        "o": "obj", "m": "mat", "id": "int", "G": "int", "zs": "sset"}
 CLOSURE = {"C": "int", "CS": "str", "CL": "ilist"}
 GLOBALS = {"G": "int", "GS": "str", "GL": "ilist", "Y": "int"}
 EXTRA_ARGS = {"Y": "int"}  # a parameter of the function that the condition never takes; collides with the global Y
@@ -327,6 +327,7 @@ def st_inputs(draw, long_values=None):
         "t": draw(st.lists(ints, max_size=3)), "o": node(2), "m": [[draw(ints), draw(ints)], [draw(ints), draw(ints)]],
         "id": draw(st.sampled_from([None, 0, 3, 4])), "Y": draw(st.sampled_from([-1000, 7, 10])),
         "G": draw(st.sampled_from([None, 5, 6, -2])),
+        "zs": sorted(draw(st.sets(st.text(ALPHABET, min_size=1, max_size=3), max_size=5))),
     }
 
 
@@ -340,6 +341,7 @@ def build_inputs(desc):
 
     out = dict(desc)
     out.setdefault("G", 5)  # cases recorded before the parameter G existed
+    out["zs"] = set(desc.get("zs", []))
     out["ss"] = set(desc["ss"])
     out["t"] = tuple(desc["t"])
     out["o"] = node(desc["o"])
